@@ -156,9 +156,18 @@ theorem dexpr_strictMono (rho eps a b : ℝ) (hr : 0 ≤ rho) (ha : 1 < a) (hab 
   have hlog := Real.log_lt_log h1 h2
   nlinarith
 
-/-- **The search localises the optimum.** If the driving expression has a root `r` in the initial
-bracket, the root lies in the final bracket, whose width is `(amax0 − 1.01)/2^1000`; hence the
-order used differs from the optimal order by at most that width. -/
+/-- **The search localises the optimum — WHEN the optimum is inside the bracket.** If the driving expression has a root `r`
+in the initial bracket `[1.01, amax0]`, the root lies in the final bracket, whose width is `(amax0 − 1.01)/2^1000`; hence the
+order used differs from the optimal order by at most that width.
+
+Scope (audit 2, `C_no_root`): `dexpr` is strictly increasing (`dexpr_strictMono`) and positive at `amax0` (`amax0_above_root`),
+so a root in the bracket exists exactly when `dexpr rho eps 1.01 ≤ 0`, i.e. `1.02·ρ ≤ ε + log 101`.  For the other parameter
+points of the property's range (e.g. `ρ = 100, ε = 1`: `dexpr 100 1 1.01 = 102 − 1 − log 101 > 0`) the hypotheses `hr1`, `hr2`,
+`hroot` are jointly UNSATISFIABLE and this lemma says nothing: there the search keeps the lower end and returns `α = 1.01`
+(`alpha_bracket`, `alpha_final_range`), which is not the optimal order.  Existence of the root in the satisfiable regime
+(intermediate value theorem) is not proved here.  The lemma is used by no other theorem: soundness of the conversion
+(`cdp_delta_ge_exact`, `cdp_rho_sound`) holds for EVERY order `α > 1` and does not depend on the search finding the optimum —
+the lemma only records how tight the search is when the optimum is reachable. -/
 theorem alpha_near_root (rho eps r : ℝ) (hr : 0 ≤ rho) (h0 : 1.01 ≤ amax0 rho eps)
     (hr1 : 1.01 ≤ r) (hr2 : r ≤ amax0 rho eps) (hroot : dexpr rho eps r = 0) :
     |(alphaSearch rho eps 1000).1 - r| ≤ (amax0 rho eps - 1.01) / 2 ^ 1000 := by
@@ -206,8 +215,12 @@ theorem amax0_above_root (rho eps : ℝ) (hr : 0 < rho) (he : 0 ≤ eps) :
   linarith
 
 /-- bracket invariant of `cdp_rho`'s bisection for every iteration count: the lower end is sound,
-the upper end either never moved or is unsound, and the width halves every step — the returned
-budget is the largest sound one up to `(ε+1)/2^n`. -/
+the upper end either never moved or is unsound, and the width halves every step.
+
+What this does NOT say: that the returned budget is "the largest sound one up to `(ε+1)/2^n`".  That reading needs
+`cdp_delta · eps` to be monotone in `ρ` (so that every `ρ` above an unsound upper end is unsound too); monotonicity is
+TESTED on log grids by the C07 harness, it is not proved.  Proved: some unsound `ρ` (or the untouched initial end `ε + 1`)
+lies within `(ε+1)/2^n` above the returned sound one. -/
 theorem cdp_rho_bracket (eps delta : ℝ) (hd : 0 < delta) (n : Nat) :
     let st := Nat.fold n (fun _ _ st => cdp_rho_loop1 eps delta st) ((0:ℝ), (0:ℝ), eps + 1)
     cdp_delta st.2.1 eps ≤ delta ∧
